@@ -222,6 +222,7 @@ def arbitrary_cases(draw, tier, size=None):
     lo_, hi = size or (1, 6 if tier == "quick" else 7)
     m = draw(st.integers(lo_, hi))
     n = draw(st.sampled_from([m, m]) if size and draw(st.booleans()) else st.integers(lo_, hi))
+    m, n = draw(gen.maybe_high_aspect(m, n, one_in=10))
     A = draw(gen.qmat(m, n, patterns=("generic", "generic", "int", "pure_imag", "axis", "sparse", "unit", "zero", "units", "units")))
     kind = draw(st.sampled_from(["plain", "plain", "zero_col", "dup_row", "scaled", "row_dominant", "col_dominant", "banded",
                                  "banded", "leading_triangle"]))
